@@ -690,8 +690,10 @@ def decorate(draw, prog, abi=True, rename=True, disable=True, density=4, namespa
                 placed.append("namespace:type")
             for impl in it.get("impls", []):
                 if abi and maybe():
-                    impl["attrs"].append('#[diplomat::abi_rename = "%s"]' % draw(st.sampled_from(ABI_PATTERNS[:4])))
-                    placed.append("abi:impl")
+                    # (a pattern without placeholder on an impl block is a plain replacement for its single method)
+                    ipat = draw(st.sampled_from(ABI_PATTERNS[:4] + ([fresh("fixed_impl_sym_")] * 2 if len(impl["methods"]) == 1 else [])))
+                    impl["attrs"].append('#[diplomat::abi_rename = "%s"]' % ipat)
+                    placed.append("abi:impl" + ("-nopattern" if "{" not in ipat else ""))
                 if disable and maybe() and maybe():
                     impl["attrs"].append("#[diplomat::attr(%s, disable)]" % draw(st.sampled_from(CFG_ATOMS)))
                     placed.append("disable:impl")
